@@ -256,6 +256,52 @@ int main(int argc, char** argv)
       }
       if(se) { bool good = (long)err.size() == sz; for(long i = 0; good && i < sz; ++i) if((unsigned char)err[i] != (unsigned char)('A' + i % 19)) good = false; if(!good) vf::violation("C20:process:stderr", cs, vf::fmt("read %ld bytes from stderr, child wrote %ld", (long)err.size(), sz)); }
     }
+    // (b') the stream combinations without a redirected stdout: the child reports on stderr, or through its exit code when neither
+    //      output is redirected (its stdout is the explorer's and stays untouched)
+    for(uint streams = 0; streams < 8; ++streams) for(int si = 0; si < 6; ++si)
+    {
+      if(!sh.take()) continue;
+      long sz = SIZES[si];
+      bool in = streams & Process::stdinStream, so = streams & Process::stdoutStream, se = streams & Process::stderrStream;
+      if(so || (!in && !se)) continue;
+      std::string cs = vf::fmt("io streams=%u (no stdout) payload=%ld", streams, sz);
+      vf::crumb("launch-io", sh.token(), cs);
+      vf::watchdog_arm(30000);
+      std::string a3 = vf::fmt("%ld", se ? sz : 0);
+      const char* av[] = {"argv0", "io", "0", a3.c_str(), "7", in ? "1" : "0", "0", se ? "e" : "x"};
+      Process p;
+      vf::hit("io_runs"); vf::hit("distinct_nontrivial");
+      if(!p.open(S(child), 8, (char* const*)av, streams)) { vf::violation("C20:process:open", cs, "open failed"); continue; }
+      unsigned long sum = 0;
+      if(in)
+      {
+        std::string payload((size_t)sz, '\0');
+        for(long i = 0; i < sz; ++i) { payload[i] = (char)(i * 7 + 3); sum = sum * 31 + (unsigned char)payload[i]; }
+        long off = 0; bool wok = true;
+        while(off < sz) { ssize n = p.write(payload.data() + off, (usize)(sz - off)); if(n <= 0) { wok = false; break; } off += n; }
+        p.close(Process::stdinStream);
+        if(!wok) { vf::violation("C20:process:stdin", cs, "write to the child's stdin failed"); p.kill(); continue; }
+      }
+      std::string out, err;
+      bool ok = se ? readAll(p, Process::stderrStream, out, err) : true;
+      uint32 code = 999; bool j = p.join(code);
+      if(!ok || !j) { vf::violation("C20:process:launch", cs, "read/join failed"); continue; }
+      if(!se)
+      {
+        uint32 want = (uint32)((sum + (unsigned long)sz) % 251);
+        if(code != want) vf::violation("C20:process:stdin", cs, vf::fmt("the child's exit code (digest of what it read from stdin) is %u, expected %u", (unsigned)code, (unsigned)want));
+        continue;
+      }
+      if(code != 7) vf::violation("C20:process:exit-code", cs, vf::fmt("join reported exit code %u, child exited with 7", (unsigned)code));
+      std::string head = vf::fmt("IN %lu %lu\n", in ? (unsigned long)sz : 0ul, in ? sum : 0ul);
+      if(err.compare(0, head.size(), head) != 0) vf::violation("C20:process:stdin", cs, "child reports '" + err.substr(0, err.find('\n')) + "', expected '" + head.substr(0, head.size() - 1) + "'");
+      else
+      {
+        std::string body = err.substr(head.size());
+        bool good = (long)body.size() == sz; for(long i = 0; good && i < sz; ++i) if((unsigned char)body[i] != (unsigned char)('A' + i % 19)) good = false;
+        if(!good) vf::violation("C20:process:stderr", cs, vf::fmt("read %ld bytes from stderr, child wrote %ld", (long)body.size(), sz));
+      }
+    }
     // (d) two processes whose lifetimes overlap: closing, joining, killing or destroying one must not disturb the streams of the other
     //     (descriptor numbers are reused by the kernel: a descriptor closed twice is somebody else's the second time)
     for(int openSecond = 0; openSecond < 2; ++openSecond) for(int finish = 0; finish < 3; ++finish) for(int firstDone = 0; firstDone < 2; ++firstDone) for(int withErr = 0; withErr < 2; ++withErr)
